@@ -118,6 +118,20 @@ def compile_case(c):
                 C.emit(2, 'ctx.capture()', 2)
                 comp_body(C, c['body'], 2, 'ctx', 0); C.emit(2, 'DONE()')
                 C.emit(2, 'ctx.force_reraise()', 3)
+            elif mode == 'post':
+                # the context object is used in a with statement and then AGAIN afterwards:
+                # post 1: ctx.force_reraise()     post 2: ctx.capture(); ctx.force_reraise()
+                C.emit(2, 'ctx = SARE(reraise=%s, logger=LG(2))' % bool(c['r0']))
+                C.emit(2, 'try:')
+                C.emit(3, 'with ctx:', 2)
+                C.emit(4, 'TOP(ctx)')
+                C.emit(4, 'try:')
+                comp_body(C, c['body'], 5, 'ctx', 0); C.emit(5, 'DONE()')
+                C.emit(4, 'except BaseException as _e:'); C.emit(5, 'BODYEXC(_e)'); C.emit(5, 'raise')
+                C.emit(2, 'except BaseException as _w:'); C.emit(3, 'WITHEXC(_w)')
+                C.emit(2, 'WITHDONE()')
+                if c['post'] == 2: C.emit(2, 'ctx.capture()', 4)
+                C.emit(2, 'ctx.force_reraise()', 3)
             else: raise ValueError(mode)
     elif op == 'filter':
         # use of the filter: 0 plain instance, 1 decorator-made, 2 bound method
@@ -172,6 +186,7 @@ class Run:
         self.completed = False; self.body_exc = None; self.top = None
         self.removed = []; self.fname = '<C09prog>'
         self.cause_info = None; self.orig = None; self.path = None; self.path_exists = None
+        self.with_exc = None; self.with_finished = False; self.with_tb_ok = None; self.with_logs = 0
         self.entry_exc = None; self.entry_tb = None; self.args_seen = []; self.given = None
 
     # helpers visible to the program
@@ -246,6 +261,14 @@ class Run:
         cur = sys.exc_info()[1]
         self.entry_exc = cur
         self.entry_tb = self.raw_frames(cur.__traceback__) if cur is not None else None
+    def with_done(self):
+        # the with statement is over (what it raised, if anything, was caught): record what the property says about it
+        self.with_finished = True
+        w = self.with_exc
+        fin = self.raw_frames(w.__traceback__) if w is not None else None
+        e = self.entry_tb
+        self.with_tb_ok = (e is not None and fin is not None and len(e) <= len(fin) and fin[len(fin) - len(e):] == e)
+        self.with_logs = sum(1 for l, a in self.logs if l == 2)
     def raw_frames(self, tb):
         out = []
         while tb is not None:
@@ -305,7 +328,9 @@ class Run:
              'ARG': self.arg, 'RPOE': self.rpoe, 'RWC': self.rwc,
              'TOP': self.set_top,
              'DONE': lambda: setattr(run, 'completed', True),
-             'BODYEXC': lambda e: setattr(run, 'body_exc', e)}
+             'BODYEXC': lambda e: setattr(run, 'body_exc', e),
+             'WITHEXC': lambda e: setattr(run, 'with_exc', e),
+             'WITHDONE': self.with_done}
         exec(compile(self.src, self.fname, 'exec'), g)
         out = None
         import logging
@@ -407,6 +432,10 @@ def facts(run):
          'pred2': [x is run.body_exc and x is not None for l, x in run.pred_seen if l == 2],
          'pred2_n': sum(1 for l, x in run.pred_seen if l == 2),
          'rm': run.nremoved()}
+    if run.case.get('mode') == 'post':
+        w = run.with_exc
+        f.update({'with_finished': run.with_finished, 'w_none': w is None, 'w_is_entry': w is not None and w is run.entry_exc,
+                  'w_is_body_exc': w is not None and w is run.body_exc, 'w_tb_kept': bool(run.with_tb_ok), 'w_logs2': run.with_logs})
     if run.case['op'] == 'call':
         l, a, cur, curtb = run.args_seen[-1] if run.args_seen else (None, None, None, None)
         f.update({'arg_none': a is None, 'arg_is_cur': a is not None and a is cur, 'out_is_arg': out is not None and out is a,
